@@ -340,6 +340,16 @@ class _Run:
             if target is None:
                 return
             name = "nosuch" if not op.get("unreg") else "s1"
+            if op.get("after_disconnect"):
+                # the "disconnect the old handler, then connect the new one" idiom with a name the class does not have:
+                # the disconnects do nothing, the connect is still rejected
+                try:
+                    sig.disconnect_signal(target, name, self.handlers[op["h"] % len(self.handlers)])
+                    sig.disconnect_signal_by_key(target, name, object())
+                except Exception as ex:  # noqa: BLE001
+                    self.violate("C14.6", f"disconnect-raised:{core.exc_signature(ex)}", repr(ex))
+                    return
+                self.res.probe("disconnect_of_unregistered_name_before_connect")
             try:
                 sig.connect_signal(target, name, self.handlers[op["h"] % len(self.handlers)])
             except NameError:
@@ -860,7 +870,7 @@ class SignalsEngine(Engine):
             if r < 0.92:
                 return {"op": "collect"}
             if r < 0.95:
-                return {"op": "connect_bad", "s": s, "h": rng.randrange(n_h), "unreg": rng.random() < 0.3}
+                return {"op": "connect_bad", "s": s, "h": rng.randrange(n_h), "unreg": rng.random() < 0.3, "after_disconnect": rng.random() < 0.5}
             if r < 0.98:
                 return {"op": "disconnect_never", "s": s, "n": n, "h": rng.randrange(n_h)}
             return {"op": "drop_sender", "s": rng.randrange(n_s)}
